@@ -49,6 +49,7 @@ func be(x *big.Int, n int) []byte {
 var SemanticOps = []string{
 	"bitflip", "plus1", "minus1", "zero-same-length", "boundary", "copy-from-bank", "swap-siblings",
 	"drop", "null", "zero-length", "array-remove-last", "array-dup-last", "negate-point", "random-same-length",
+	"negate-scalar",
 }
 
 // MalformOps: structural malformations (C05 catalogue).
@@ -66,6 +67,8 @@ func Applicable(op string, n Node) bool {
 		return isBytes && n.Len > 0
 	case "negate-point":
 		return n.Shape == "bytes33"
+	case "negate-scalar":
+		return n.Shape == "bytes32"
 	case "boundary":
 		return isBytes || n.Shape == "uint" || n.Shape == "int"
 	case "copy-from-bank":
@@ -146,6 +149,15 @@ func Apply(s *sim.Source, tree interface{}, n Node, op string, bank []BankEntry)
 		nb := append([]byte{}, b...)
 		nb[0] ^= 1
 		return set(nb)
+	case "negate-scalar":
+		// q - x: the exact negation of a scalar (x*G and (q-x)*G differ in the sign of y only)
+		x := new(big.Int).SetBytes(b)
+		q := new(big.Int).SetBytes(qBytes)
+		x.Mod(x, q)
+		if x.Sign() == 0 {
+			return tree, res, false
+		}
+		return set(be(new(big.Int).Sub(q, x), 32))
 	case "boundary":
 		switch n.Shape {
 		case "bytes33":
